@@ -11,7 +11,7 @@ KINDS = {
     "C01": {"m", "pair_m"},
     "C02": {"span", "tok", "anaflat", "weakspan", "weakend", "repl"},
     "C03": {"group", "tree", "repl"},
-    "C04": {"tok", "anaflat", "span", "partition", "repl"},
+    "C04": {"tok", "anaflat", "span", "partition", "repl"} | FAULTS,
     "C05": set(FAULTS),
     "C06": {"hang", "items"},
     "C07": {"compile", "compile_kind"},
@@ -96,11 +96,11 @@ def plan(prop, tier):
                 T("rand", "spans", 1500, 30000), T("astralr", "astral", 500, 10000), T("mlr", "anchors", 1000, 20000)]
     if prop == "C03":
         return [dict(G("caps", Leaves="<-LvAB", Quants="<-QSmall", MaxSize=5 if q else 6, MaxGroups=3, Repl2="<-ReplGroups",
-                       MaxLen=3 if q else 4), trace=not q),
+                       MaxLen=3 if q else 4)),
                 G("caps12", Leaves="<-LvG12", Quants="<-QOptOnly", MaxSize=2, MaxGroups=13, Repl2="<-ReplG12", MaxLen=3,
                   invs=["T1_RoundTrip", "T3_Leftmost"]),
                 dict(G("nest", Leaves="<-LvNest", Quants="<-QBasic" if q else "<-QBasicLazy", MaxSize=5, MaxGroups=9, Shapes="<-ShapesNoGrp", MaxLen=3,
-                       Repl2="<-ReplG2", invs=["T1_RoundTrip", "T3_Leftmost"]), trace=True),
+                       Repl2="<-ReplG2", invs=["T1_RoundTrip", "T3_Leftmost"]), trace=q),   # (traced in the quick tier: the thorough trace is too large for one TLC)
                 G("mlcaps", Leaves="<-LvMlCaps", Quants="<-QOptOnly", MaxSize=5 if q else 6, MaxGroups=9, FlagSets="<-FlagsM",
                   Shapes="<-ShapesNoGrp", Alpha="{97, 98, 10}", MaxLen=3, Repl2="<-ReplG2", invs=["T1_RoundTrip", "T3_Leftmost"]),
                 G("brefalt", Leaves="<-LvBrefAlt", Quants="<-QBrefAlt", MaxSize=4, MaxLen=4, MaxGroups=2,
@@ -121,6 +121,8 @@ def plan(prop, tier):
                   Alpha="{97, 10}", MaxLen=4, Repl2="<-ReplHash"),
                 G("casei", Leaves="<-LvCaseL1", Quants="<-QBasic", MaxSize=2 if q else 3, FlagSets="<-FlagsI",
                   Alpha="{233, 201, 53}", MaxLen=3, Repl2="<-ReplHash"),
+                G("emptygrp", Leaves="<-LvEmptyGrp", Quants="<-QPlusOnly", Shapes="<-ShapesSeq", MaxSize=3, MaxGroups=3, MaxLen=3,
+                  Repl2="<-ReplG2", invs=["T1_RoundTrip", "T3_Leftmost", "T5_Partition"]),      # no ? * { anywhere, yet groups match nothing
                 T("rand", "spans", 1000, 20000), T("astralr", "astral", 1000, 20000),
                 T("mlr", "anchors", 1000, 20000)] + ([] if q else [SUITE])
     if prop == "C05":
@@ -141,6 +143,8 @@ def plan(prop, tier):
                   MaxLen=3 if q else 4, FlagSets="<-FlagsM")] + \
                ([] if q else [G("loops5", Leaves="<-LvLoop", Quants="<-QBasicLazy", MaxSize=5, Alpha="{97, 98, 10}",
                                 MaxLen=3, FlagSets="<-FlagsM")]) + [
+                G("dynempty", Leaves="<-LvDynEmpty", Quants="<-QCount2", MaxSize=3, MaxLen=2, FlagSets="<-FlagsM", Alpha="{97, 98}",
+                  invs=["T1_RoundTrip", "T7_Nullable"]),          # a nullability verdict that is wrong makes tokenize endless
                 {"type": "machine", "tag": "machine", "size": 3 if q else 4, "len": 3},
                 T("rand", "loops", 2000, 40000), T("bounds", "general", 2200, 21000, mode="bounds"),
                 T("garbage", "general", 1000, 30000, mode="garbage")]
@@ -216,6 +220,8 @@ def plan(prop, tier):
     if prop == "C12":
         return [G("anch", Leaves="<-LvAnch", Quants="<-QBasicLazy", MaxSize=3 if q else 4, FlagSets="<-FlagsMS",
                   Alpha="{97, 10, 13}", MaxLen=3 if q else 4),
+                G("dynempty", Leaves="<-LvDynEmpty", Quants="<-QCount2", MaxSize=3, MaxLen=3, FlagSets="<-FlagsM", Alpha="{97, 98, 10}",
+                  invs=["T1_RoundTrip", "T2_OrderFree"]),               # quantified alternations of anchors and letters
                 T("rand", "anchors", 2000, 40000)]
     if prop == "C14":
         return [G("ws", Leaves="<-LvWs", Quants="<-QSmall" if q else "<-QAll", MaxSize=3, MaxLen=2 if q else 3, Variants='{"ws"}',
@@ -254,7 +260,7 @@ def plan(prop, tier):
                 T("threads", "general", 800, 15000, mode="threads")] + ([] if q else [SUITE])
     if prop == "C19":
         return [dict(G("bref", Leaves="<-LvBref", Quants="<-QSmall", MaxSize=5, MaxLen=4 if q else 5,
-                       FlagSets="<-OnlyNoFlags"), trace=not q),          # (thorough: also validated as a trace - two-model zone)
+                       FlagSets="<-OnlyNoFlags")),
                 G("brefi", Leaves="<-LvBrefI", Quants="<-QBasic", MaxSize=4, MaxLen=3, FlagSets="<-FlagsI",
                   Alpha="{97, 65, 98}"),
                 G("brefalt", Leaves="<-LvBrefAlt", Quants="<-QBrefAlt", MaxSize=4, MaxLen=4 if q else 5, MaxGroups=2,
@@ -275,6 +281,8 @@ def plan(prop, tier):
                   Variants='{"laws"}', invs=["T1_RoundTrip", "T16_Laws"]),
                 G("lawscat", Leaves="<-LvCatCase", Quants="<-QCatCase", MaxSize=3, MaxLen=3, FlagSets="<-FlagsI", Shapes="<-ShapesSeq",
                   Alpha="{97, 65, 49}", Variants='{"laws"}', invs=["T1_RoundTrip", "T16_Laws", "T21_OpSem"]),
+                G("lawsdyn", Leaves="<-LvDynEmpty", Quants="<-QCount2", MaxSize=3, MaxLen=2 if q else 3, Alpha="{97, 98}",
+                  Variants='{"laws"}', invs=["T1_RoundTrip", "T16_Laws"]),              # counted repeats of bodies that are empty only at an anchor
                 G("lawsvar", Leaves="<-LvVarLen", Quants="<-QVarLen", MaxSize=3, MaxLen=4 if q else 5,
                   Variants='{"laws"}', invs=["T1_RoundTrip", "T16_Laws", "T21_OpSem"]),
                 T("rand", "general", 1500, 30000),
